@@ -91,3 +91,24 @@ package bridgeservice
 //@   assert call:GetLocalExitRoot recv == b.l1InfoTree && arg1 == networkID && arg2 == info.RollupExitRoot && networkID == b.networkID
 //@   assert call:GetProof:1 recv == b.bridgeL2 && networkID == b.networkID && arg1 == depositCount && arg2 == localExitRoot
 //@   assert call:GetRollupExitTreeMerkleProof recv == b.l1InfoTree && (arg1 == 0 || arg1 == b.networkID) && arg2 == info.RollupExitRoot
+
+// the index look-up endpoint (C12): mainnet bridges are looked up against mainnet exit roots, bridges of this network
+// against its local exit roots, for the deposit count asked for; other networks are refused
+// HTTP and metrics plumbing: assumed not to touch the service object (A4)
+//@ extern (*github.com/gin-gonic/gin.Context).Query (c, key)
+//@   modifies nothing
+//@ extern (*github.com/gin-gonic/gin.Context).JSON (c, code, obj)
+//@   modifies nothing
+//@ func parseUintQuery
+//@   trusted
+//@   modifies nothing
+//@ interface go.opentelemetry.io/otel/metric.Meter.Int64Counter (self, name, options)
+//@   modifies nothing
+//@ interface go.opentelemetry.io/otel/metric.Int64Counter.Add (self, ctx, incr, options)
+//@   modifies nothing
+//@ func (b *BridgeService) L1InfoTreeIndexForBridgeHandler
+//@   props C12
+//@   requires b != nil && b.logger != nil && b.l1InfoTree != nil && b.bridgeL1 != nil && b.bridgeL2 != nil && c != nil
+//@   modifies heap
+//@   assert call:getFirstL1InfoTreeIndexForL1Bridge networkID == 0 && arg2 == depositCount
+//@   assert call:getFirstL1InfoTreeIndexForL2Bridge networkID == b.networkID && networkID != 0 && arg2 == depositCount
